@@ -89,7 +89,10 @@ BOUNDED_SEARCH = {
     'C04': [('C04.dijkstra.reported_distances_are_minimal_bounded', 'sp_oracle', 'src/algorithms/shortest_path/dijkstra.rs',
              'single_source (fast path and with paths) and all_pairs against the minimum walk length by Floyd-Warshall')],
     'C08': [('C08.entry_points_agree_bounded', 'sp_oracle', 'src/algorithms/shortest_path/dijkstra.rs',
-             'all_pairs[x][y] and single_source(x)[y] both equal the Floyd-Warshall minimum, with and without paths')],
+             'all_pairs[x][y] and single_source(x)[y] both equal the Floyd-Warshall minimum, with and without paths'),
+            ('C08.cutoff_and_target_restrict_but_do_not_change_bounded', 'sp_options_oracle', 'src/algorithms/shortest_path/dijkstra.rs',
+             'single_source with a cutoff (every distinct distance value from the source and a value 0.25 above it: exactly the entries with distance <= c, unchanged) and with a target '
+             '(every node: the unrestricted distance for the target, other reported nodes unchanged), for with_paths / first_only in {(false,false),(true,false),(true,true)}')],
     'C05': [('C05.betweenness_equals_the_pair_sum_bounded', 'betweenness_oracle', 'src/algorithms/centrality/betweenness.rs',
              'betweenness_centrality (hop counts and strictly positive weights 1.0 / 2.5 / 3.5, normalized or not, single-edge graphs) against the sum over ordered pairs of the '
              'fraction of shortest paths through the node computed by brute force, tolerance 1e-9')],
